@@ -122,7 +122,7 @@ def replay_exact(chk, F, simplex_mod, cases, stats):
         real = L.run_real(simplex_mod, L.OBJ[rec["fn"]], e["guess"], e["inc"], e["kk"], e["eps"], e["maxit"])
         fails, verdict = L.judge(rec, real, e)
         # the float stopping decision of every pass must have an exact margin (construction of the epsilon values)
-        if not real.get("error"):
+        if not real.get("error") and not fails:
             for sn in real["snaps"][:len(e["snaps"])]:
                 ok, _ = L.decision_margin_ok(sn["E"], e["eps"])
                 if not ok:
@@ -139,7 +139,7 @@ def replay_exact(chk, F, simplex_mod, cases, stats):
             stats["out_of_scope_prefix_only"] += 1
         else:
             stats["exit_" + rec["exit"]] += 1
-            if rec["ret"]["x"] != rec["best"]["x"] or rec["ret"]["err"] != rec["best"]["err"]:
+            if not L.model_return_is_best(rec):
                 stats["asis_model_differs_from_best"] += 1
             if rec["exit"] == "eps" and rec["steps"] > 0 and rec["eps"]["kind"] == "pos":
                 stats["converged_after_moving_eps_pos"] += 1
@@ -147,6 +147,8 @@ def replay_exact(chk, F, simplex_mod, cases, stats):
                 stats["ties_at_return"] += 1
         if any(x == 0 for x in rec["inc"]):
             stats["zero_increment"] += 1
+        if list(rec["kk"]) != [-1, 2, 2] and "MultiContract" in rec["acts"] and not rec["oos"]:
+            stats["multiple_contraction_with_other_kC"] += 1
         for where, msg in fails:
             F.add(("replay", classify(where)), "%s: %s" % (where, msg), {"kind": "exact", "rec": rec})
         if not fails and not rec["oos"]:
@@ -169,12 +171,35 @@ def replay_exact(chk, F, simplex_mod, cases, stats):
                     real["ret"][:2], e["ret_best"][:2]), {"kind": "exact", "rec": rec})
             else:
                 F.add(("return", "stale-" + cls), "minimize(maxiters=%d) returned %r although the simplex holds %r (stopped on "
-                      "maxiters after %d passes; objective %s, guess %r, increments %r)" % (
-                          rec["maxit"], real["ret"][:2], e["ret_best"][:2], rec["steps"], rec["fn"], e["guess"], e["inc"]),
+                      "maxiters after %d passes; objective %s, guess %r, increments %r%s)" % (
+                          rec["maxit"], real["ret"][:2], e["ret_best"][:2], rec["steps"], rec["fn"], e["guess"], e["inc"],
+                          "; the returned value is the one stored for the LAST vertex, not the objective at the returned "
+                          "point" if rec["maxit"] == 0 else ""),
                       {"kind": "exact", "rec": rec})
                 stats["real_returns_stale"] += 1
         elif verdict == "best" and not rec["oos"]:
             stats["real_returns_best"] += 1
+
+
+def cross_check(chk, cases, nsample):
+    """the two specifications agree with each other (no code involved): behaviours of Simplex.tla, written as logs,
+    must be accepted by TraceSimplex.tla with the same verdict on the returned pair"""
+    rng = np.random.RandomState(common.seed() + 77)
+    done = [r for r in cases if not r["oos"]]
+    idx = np.arange(len(done)) if len(done) <= nsample else np.sort(rng.choice(len(done), nsample, replace=False))
+    recs, want = [], {}
+    for i in idx:
+        r = done[i]
+        e = L.expect(r)
+        t, _ = L.trace_record("x%d" % i, L.fake_real(e), e["n"], e["maxit"], e["eps"], e["guess"])
+        recs.append(t)
+        want[t["id"]] = (L.model_return_is_best(r), r["exit"])
+    vs = validate_traces(chk, recs, "cross")
+    for rid, (best, ex) in want.items():
+        v = vs[rid]
+        if not v["ok"] or not v["asis"] or v["best"] != best or v["exit"] != ex:
+            raise common.MachineryError("Simplex.tla behaviour %s not accepted as such by TraceSimplex.tla: %s" % (rid, v))
+    chk.notes["model_behaviours_validated_by_trace_spec"] = len(recs)
 
 
 # ------------------------------------------------------------------------------------------------
@@ -250,6 +275,7 @@ def float_recipes(tier, simplex_mod):
     add("sph", 4, [0.1, 0.2, 0.3, 0.4], [1.0, 1.0, 1.0, 1.0], 1e3, 50)  # epsilon so large that pass 0 converges
     add("rosen", 3, [0.0, 0.0, 0.0], [0.4, 0.4, 0.4], 1e-4, 120, (-1.0, 1.5, 0.4))
     add("himmelblau", 2, [-3.0, 3.0], [0.5, 0.5], 1e-4, 90, (-1, 2, 0.5))
+    add("plat", 3, [2.5, -1.5, 1.5], [1.0, 1.0, 1.0], -1.0, 30, (-1.0, 2.0, 0.25))   # multiple contractions with kC # 1/2
     nrand = 36 if tier == "quick" else 400
     fns = [("rosen", (2, 6)), ("himmelblau", (2, 2)), ("powell", (4, 4)), ("abs15", (2, 6)), ("quant", (2, 5)), ("ripple", (2, 6)),
            ("sph", (2, 6))]
@@ -319,17 +345,21 @@ def float_direction(chk, F, simplex_mod, recipes, stats, tag="runs", coverage=Fa
         stats["float_passes"] += len(run["snaps"])
         stats["float_evaluations"] += len(run["evals"])
         stats["float_decisions_without_margin"] += margin_bad
+        if rcp["kk"] is not None and rcp["kk"][2] != 0.5 and any("multiple_contract_simplex" in c for c in run["calls"]):
+            stats["float_multiple_contraction_with_other_kC"] += 1
         recs.append(rec)
         runs[rcp["id"]] = (rcp, run, rec)
         # laws judged from their definitions on the real floats
         for where, msg in L.geometry_fails(run, n, rcp["kk"]):
             F.add(("float run", "geometry"), "%s: %s" % (where, msg), case)
+        # NonDegenerate is a law of exact arithmetic (checked on every state of the exact direction).  In binary64 it is
+        # promised for the simplex __init__ builds only: a long run collapses the vertices onto one float point, and the
+        # centroid (g+g+g)/3 of a zero-increment coordinate need not round back to g.
         nz = all(x != 0 for x in rcp["inc"])
-        for k, sn in enumerate(run["snaps"][:40] + [run["final"]]):
-            if L.det_nonzero(sn["S"], n) != nz:
-                F.add(("float run", "NonDegenerate"), "simplex %s although %s increment is zero (pass %d of %s)" % (
-                    "non-degenerate" if not nz else "degenerate", "an" if not nz else "no", k, rcp["id"]), case)
-                break
+        first = run["snaps"][0] if run["snaps"] else run["final"]
+        if L.det_nonzero(first["S"], n) != nz:
+            F.add(("float run", "NonDegenerate"), "initial simplex %s although %s increment is zero (%s)" % (
+                "non-degenerate" if not nz else "degenerate", "an" if not nz else "no", rcp["id"]), case)
         if run["guess_obj"] != run["ret"][0] or run["inc_after"] != run["inc_in"]:
             F.add(("float run", "lists"), "guess list not left at the answer or increments modified", case)
     verdicts = validate_traces(chk, recs, tag, coverage) if recs else {}
@@ -368,11 +398,16 @@ def callers(chk, F, mods, stats, tier):
     for (k, ng, iters) in plan:
         prob = C.make_problem(mods[:5], common.scratch(), common.seed() * 100 + 5 + k, k=k, ngrains=ng, tag="x05_k%d" % k)
         rows = []
-        for mi in iters:
-            rows += C.run_refinepositions(rgmod, simplex_mod, prob, mi)
-        for mi in ([4, 40] if tier == "quick" else [1, 4, 40, 100]):
-            rows.append(C.run_fit(rgmod, simplex_mod, prob, mi))
-        rows += C.run_transformer_fit(transformer_mod, simplex_mod, prob)
+        jobs = [("refinegrains.refinepositions", mi, lambda mi=mi: C.run_refinepositions(rgmod, simplex_mod, prob, mi)) for mi in iters]
+        jobs += [("refinegrains.fit", mi, lambda mi=mi: [C.run_fit(rgmod, simplex_mod, prob, mi)])
+                 for mi in ([4, 40] if tier == "quick" else [1, 4, 40, 100])]
+        jobs.append(("transformer.fit", None, lambda: C.run_transformer_fit(transformer_mod, simplex_mod, prob)))
+        for cname, mi, job in jobs:
+            try:
+                rows += job()
+            except Exception as e:        # noqa  (the code under test, or a caller that did not run the optimiser as expected)
+                F.add(("caller", "raise"), "%s(maxiters=%s) on the simulated problem: %r" % (cname, mi, e),
+                      {"kind": "caller", "caller": cname, "k": k, "ngrains": ng, "maxiters": mi, "seed": common.seed()})
         for r in rows:
             case = {"kind": "caller", "caller": r["caller"], "k": k, "ngrains": ng, "maxiters": r.get("maxiters"),
                     "seed": common.seed()}
@@ -380,6 +415,9 @@ def callers(chk, F, mods, stats, tier):
             chk.traces += 1
             stats["caller_runs"] += 1
             f = r["facts"]
+            if r.get("maxiters") is not None and r["caller"].startswith("refinegrains") and \
+                    ("('maxiters', %d)" % r["maxiters"]) not in r["args"][1]:
+                F.add(("caller", "maxiters"), "%s(maxiters=%d) called minimize with %s" % (r["caller"], r["maxiters"], r["args"]), case)
             if not f["consistent"]:
                 F.add(("caller", "value"), "%s: returned value is not the objective at the returned point" % r["caller"], case)
             if not f["best"]:
@@ -458,17 +496,20 @@ def run(tier, replay_path=None):
     F = Failures()
     stats = new_stats()
     coverage = (tier == "thorough")
+    allcases = []
     # ---- spec -> code
     for name, cfg, timeout in RUNS[tier]:
         t0 = time.time()
         cases = tlc_cases(chk, name, cfg, timeout, coverage)
         t1 = time.time()
         replay_exact(chk, F, simplex_mod, cases, stats)
+        allcases += cases
         chk.notes.setdefault("cases_per_run", {})[name] = {"cases": len(cases), "tlc_s": round(t1 - t0, 1),
                                                           "replay_s": round(time.time() - t1, 1), "invariants": INV_ASIS}
         if cases:
             c0 = cases[len(cases) // 2]
             chk.sample({k: c0[k] for k in ("fn", "n", "x0", "inc", "eps", "maxit", "kk", "acts", "evals", "ret", "best", "exit")}, limit=3)
+    cross_check(chk, allcases, 150 if tier == "quick" else 1500)
     for cfg in FIXED_RUNS[tier]:
         res = common.run_tlc("Simplex", os.path.join(common.SPECS, cfg), workers=workers(), timeout=900)
         chk.add_tlc("%s (FIXED=TRUE: all laws incl. ReturnIsBest, ReturnIsVertexValue)" % cfg, res)
@@ -481,7 +522,7 @@ def run(tier, replay_path=None):
     asis = asis_runs(chk, simplex_mod)
     # vacuity of the exact direction
     for key in ("exit_eps", "exit_maxit", "zero_increment", "ties_at_return", "converged_after_moving_eps_pos",
-                "asis_model_differs_from_best"):
+                "asis_model_differs_from_best", "multiple_contraction_with_other_kC"):
         if stats[key] == 0:
             raise common.MachineryError("vacuity: no emitted case with %s" % key)
     for a in ACTIONS:
@@ -495,8 +536,10 @@ def run(tier, replay_path=None):
     t0 = time.time()
     recs = float_direction(chk, F, simplex_mod, float_recipes(tier, simplex_mod), stats, coverage=True)
     chk.notes["float_direction_s"] = round(time.time() - t0, 1)
+    if stats["float_multiple_contraction_with_other_kC"] == 0 and not F.groups:
+        raise common.MachineryError("vacuity: no float run with kC # 1/2 reached a multiple contraction")
     for a in TRACE_ACTIONS:
-        if chk.notes.get("trace_action_coverage", {}).get(a, 0) == 0:
+        if chk.notes.get("trace_action_coverage", {}).get(a, 0) == 0 and not F.groups:
             raise common.MachineryError("vacuity: trace action %s never taken" % a)
     # ---- callers
     t0 = time.time()
@@ -600,7 +643,7 @@ def _perturbed(rec):
     c = cp(); c["evals"].append(c["evals"][-1]); out.append(("number of evaluations", c))
     c = cp(); c["snaps"][1]["hi"] = 1; out.append(("highest", c))
     c = cp(); c["snaps"][1]["lo"] = 1; out.append(("lowest", c))
-    c = cp(); c["snaps"][2]["sh"] = 0; out.append(("secondhighest", c))
+    c = cp(); c["snaps"][2]["sh"] = 1; out.append(("secondhighest", c))
     c = cp(); c["snaps"][2]["E"][1] += 1024; out.append(("stored value in a pass", c))
     c = cp(); c["snaps"][1]["S"][3][0] += 512; out.append(("stored centroid", c))
     c = cp(); c["snaps"][1]["S"][4][1] += 512; out.append(("stored reflected point", c))
@@ -616,13 +659,9 @@ def _perturbed(rec):
 
 
 def selftest(mods=None, chk=None, recs=None):
-    if mods is None:
-        shadow = common.build_shadow("normal")
-        common.use_shadow(shadow)
-        mods = load_mods()
-    simplex_mod = mods[6]
+    """independent of the code under test: the `real` run is synthesised from the model record"""
     e = L.expect(ST_REC)
-    real = L.run_real(simplex_mod, L.OBJ["abs"], e["guess"], e["inc"], e["kk"], e["eps"], e["maxit"])
+    real = L.fake_real(e)
     fails, v = L.judge(ST_REC, real, e)
     if fails or v != "best":
         raise common.MachineryError("selftest: correct expectation rejected: %s %s" % (fails[:2], v))
@@ -630,48 +669,47 @@ def selftest(mods=None, chk=None, recs=None):
         fails, v = L.judge(bad, real)
         if not fails:
             raise common.MachineryError("selftest: perturbed %s accepted" % fld)
-    bad = json.loads(json.dumps(ST_REC)); bad["ret"]["x"][0] += 512; bad["best"]["x"][0] += 512
-    if L.judge(bad, real)[1] != "other":
-        raise common.MachineryError("selftest: perturbed returned point accepted")
-    bad = json.loads(json.dumps(ST_REC)); bad["best"]["err"] -= 1024
+    real2 = dict(real, ret=([real["ret"][0][0] + 0.5] + real["ret"][0][1:], real["ret"][1], real["ret"][2]))
+    if L.judge(ST_REC, real2)[1] != "other":
+        raise common.MachineryError("selftest: a returned point that is no vertex accepted")
+    real2 = dict(real, ret=(real["ret"][0], real["ret"][1] + 0.5, real["ret"][2]))
+    if L.judge(ST_REC, real2)[1] != "other":
+        raise common.MachineryError("selftest: a returned value that is not the stored one accepted")
+    bad = json.loads(json.dumps(ST_REC)); bad["E"][2] = bad["ret"]["err"] - 1024
     if L.judge(bad, real)[1] != "asis":
         raise common.MachineryError("selftest: return that is not the model's best vertex not noticed")
-    # trace direction: corrupted logs must be rejected by TraceSimplex
-    if recs is None:
-        rcp = {"id": "st", "fn": "rosen", "n": 2, "x0": [-1.2, 1.0], "inc": [0.1, 0.1], "eps": 1e-4, "maxit": 30, "kk": None}
-        run = run_float(simplex_mod, rcp)
-        base, _ = L.trace_record("st", run, 2, 30, 1e-4, rcp["x0"])
-    else:
-        base = [r for r in recs if len(r["passes"]) >= 6 and r["n"] >= 2][0]
+    # trace direction: the exact model's behaviour must be accepted by TraceSimplex, corrupted logs rejected
+    base, _ = L.trace_record("st", real, e["n"], e["maxit"], e["eps"], e["guess"])
 
     def cp(i):
         c = json.loads(json.dumps(base))
         c["id"] = "bad%d" % i
         return c
     bads = []
-    multi = [i for i, p in enumerate(base["passes"]) if p["calls"]]
-    i0 = multi[2] if len(multi) > 2 else multi[0]
-    c = cp(1); c["passes"][i0 + 1]["E"][c["passes"][i0]["hi"]] += 1 if c["passes"][i0 + 1]["E"][c["passes"][i0]["hi"]] != c["passes"][i0]["E"][c["passes"][i0]["hi"]] else 1000; bads.append(c)
+    i0 = 1
+    c = cp(1); c["passes"][i0 + 1]["E"][c["passes"][i0]["hi"]] += 1000; bads.append(c)
     c = cp(2); c["passes"][i0]["hi"], c["passes"][i0]["lo"] = c["passes"][i0]["lo"], c["passes"][i0]["hi"]; bads.append(c)
     c = cp(3); c["passes"][i0]["calls"] = c["passes"][i0]["calls"][:1]; bads.append(c)
-    c = cp(4); c["passes"][i0]["ev"][0][1] = 0; bads.append(c)           # a reflected value below everything: must expand
+    c = cp(4); c["passes"][i0]["ev"][0][1] = 1000; bads.append(c)        # a reflected value above everything: must contract
     c = cp(5); c["ret"]["it"] += 1; bads.append(c)
     c = cp(6); c["fin"]["P"][0] = 999999; bads.append(c)
     c = cp(7); c["nev"] += 1; bads.append(c)
     c = cp(8); c["passes"][i0]["convx"] = True; bads.append(c)
+    c = cp(9); c["passes"][2]["calls"][2] = "expand_simplex"; bads.append(c)
+    c = cp(10); c["passes"] = c["passes"][:2]; bads.append(c)           # the loop ended before maxiters
     tmp = common.Check(PROP, "quick")
     vs = validate_traces(tmp, [base] + bads, "selftest")
+    if not vs[base["id"]]["ok"] or not vs[base["id"]]["best"]:
+        raise common.MachineryError("selftest: behaviour of Simplex.tla rejected by TraceSimplex.tla: %s" % vs[base["id"]])
+    for b in bads:
+        if vs[b["id"]]["ok"]:
+            raise common.MachineryError("selftest: corrupted trace %s accepted" % b["id"])
+    c = cp(11); c["ret"]["v"] = max(c["fin"]["E"]) + 1
+    vs = validate_traces(tmp, [c], "selftest2")
+    if vs[c["id"]]["best"]:
+        raise common.MachineryError("selftest: a returned value that is not the minimum passed as best")
     if chk is not None:
         chk.states += tmp.states
         chk.transitions += tmp.transitions
         chk.tlc_runs += tmp.tlc_runs
-    if not vs[base["id"]]["ok"]:
-        raise common.MachineryError("selftest: correct trace rejected: %s" % vs[base["id"]])
-    for b in bads:
-        if vs[b["id"]]["ok"]:
-            raise common.MachineryError("selftest: corrupted trace %s accepted" % b["id"])
-    c = cp(9); c["ret"]["v"] = max(c["fin"]["E"]) + 1
-    vs = validate_traces(tmp, [c], "selftest2")
-    if vs[c["id"]]["best"]:
-        raise common.MachineryError("selftest: a returned value that is not the minimum passed as best")
     return True
